@@ -6,7 +6,7 @@ export VERIF_EVIDENCE_DIR=/var/tmp/tzrs-verif-evidence-scratch
 ids=("$@"); [ ${#ids[@]} -eq 0 ] && ids=($(ls seeded | grep -E '^C[0-9]+-[0-9]+$'))
 if [ -n "$(git -C /repo status --porcelain -- src)" ]; then echo "/repo/src is not clean"; exit 2; fi
 for id in "${ids[@]}"; do
-  prop=${id%%-*}
+  prop=${id:0:3}
   props=${SEED_PROPS:-$prop}
   git -C /repo apply /verif/seeded/$id/patch.diff || { echo "$id: patch does not apply"; continue; }
   for p in $props; do
